@@ -236,7 +236,9 @@ func (c *Ctx) middlewareFailClosed(rule string) {
 	}
 	r.Extra["blocking_middlewares"] = n
 	if n < 2 {
-		r.Unknown(rule, "-", "lock/confirm middleware", "-", sprintf("expected the lock and the confirm middleware bodies, found %d", n))
+		// the bodies may live in a shared package (C03.middleware locates and
+		// decides them there); this add-on rule then has nothing of its own to say
+		r.Info(rule, "-", "lock/confirm middleware", "-", sprintf("%d middleware bodies in the lock and confirm packages themselves (reference: 2)", n))
 	}
 }
 
